@@ -39,6 +39,11 @@ def cells(tier):
     for old, seq in [(3, [1]), (2, [0, 3]), (1, ["inf", 1]), ("inf", [1])]:
         sc = scen(pool(old), [[A("A", 3)], [["set_size", v] for v in seq], [P]], outcomes=["ret"])
         out.append(cell(f"s{old} A3|resize{seq}", sc, MON))
+    # lock()/unlock() while a flush() is suspended on a slow callback
+    sc = scen(pool(2), [[A("A", 2)], [cancel(rid("A", 0))], [FLUSH], [LOCK], [P]], outcomes=["ret"], ecb="plain", ccb="slow", slow_ids=[0])
+    out.append(cell("s2 A2 cancelA0 flush(in flight)|lock slowccb0", sc, MON))
+    sc = scen(pool(2), [[A("A", 2), LOCK], [FLUSH_RE], [UNLOCK], [P]], outcomes=["ret"], ecb="slow", ccb="plain", slow_ids=[0])
+    out.append(cell("s2 A2,lock flushRE(in flight)|unlock slowecb0", sc, MON))
     for size in [1, 2]:
         sc = scen(pool(size, "SimpleTaskPool"), [[S("S", 2)], [LOCK, UNLOCK], [GAC], [P]], outcomes=["ret"])
         out.append(cell(f"simple s{size} S2|lock,unlock|gac", sc, MON))
